@@ -248,6 +248,14 @@ def _materialise(kind, base):
     if kind == "range":
         rg = range(*base)
         return rg, list(rg)
+    if kind in ("ptuples", "perms"):
+        # values that are EQUAL and hash-equal across the two kinds (a Perm is a tuple) but ORDERED differently:
+        # plain tuples lexicographically, permutations by (length, entries) - a memo keyed by == must not confuse them
+        pool = ((1, 0), (0, 1, 2), (0,), (0, 1), (2, 1, 0), (1, 0, 2))
+        raw = [pool[v % 6] for v in base]
+        if kind == "ptuples":
+            return tuple(raw), raw
+        return tuple(_P()(t) for t in raw), [(len(t), t) for t in raw]
     if kind == "lists":  # unhashable elements
         vals = [[v] for v in base]
         return list(vals), vals
@@ -679,7 +687,7 @@ def run(ctx):
 
     # ---- standardisation
     seqs = [t for k in range(0, 6) for t in itertools.product(range(3), repeat=k)]
-    kinds = ("tuple", "list", "float", "floatint", "allfloat", "bool", "fraction", "str", "strs", "tuples", "big", "gen", "iter")
+    kinds = ("tuple", "list", "float", "floatint", "allfloat", "bool", "fraction", "str", "strs", "tuples", "big", "gen", "iter", "ptuples", "perms")
     items = [(kind, t) for t in seqs for kind in kinds]
     rng.shuffle(items)  # seeded order: the memo is warm with equal keys of other types
     for _ in range(400 if quick else 4000):
@@ -690,8 +698,8 @@ def run(ctx):
             for st in (1, 2, -1):
                 items.append(("range", (a, b, st)))
     ctx.run("C09.standardise", items, chunk=300,
-            rule="all sequences of length <= 5 over 3 letters, as 13 kinds of input (ints, lists, floats, mixed int/float, "
-                 "bools, Fractions, str, tuples of str, tuples, big ints, generators, iterators), seeded order, each called twice "
+            rule="all sequences of length <= 5 over 3 letters, as 15 kinds of input (ints, lists, floats, mixed int/float, "
+                 "bools, Fractions, str, tuples of str, tuples, big ints, generators, iterators, plain tuples vs equal Perm objects), seeded order, each called twice "
                  "through the three aliases; seeded sequences of length 6-12; ranges; non-trivial = has a tie")
     ctx.add_sample("C09.standardise", ("str", (2, 0, 0, 1, 0)))
     unh = [(kind, t) for t in seqs if 1 <= len(t) <= 3 for kind in ("lists", "listpairs", "lists_gen", "lists_iter", "lists_map", "lists_reversed")]
@@ -704,7 +712,7 @@ def run(ctx):
         steps = []
         for _ in range(rng.randrange(4, 12)):
             t = rng.choice(seqs)
-            for kind in rng.sample(("tuple", "floatint", "allfloat", "bool", "fraction", "list", "gen", "big"), 3):
+            for kind in rng.sample(("tuple", "floatint", "allfloat", "bool", "fraction", "list", "gen", "big", "ptuples", "perms", "perms", "ptuples"), 3):
                 steps.append((kind, t))
         rng.shuffle(steps)
         hist.append(("steps", tuple(steps)))
